@@ -1354,8 +1354,12 @@ def _c11_child(directory, n, delay):
     import time
     import lazy_dataset
     ds = lazy_dataset.new(list(range(n))).map(_c11_value).diskcache(directory, reuse=True, clear=False)
+    fd = os.open(directory + '.progress', os.O_WRONLY | os.O_CREAT | os.O_APPEND)
     for i in range(n):
         ds[i]
+        # the access has returned: the example counts as stored from here on (independent record, durable before we go on)
+        os.write(fd, b'%d\n' % i)
+        os.fsync(fd)
         time.sleep(delay)
 
 
@@ -1410,6 +1414,14 @@ def diskcache_kill_points(tier='quick'):
                 _fail(fails, sc, 'never serves a corrupt or misplaced example', got, 'pipeline values')
             if len(calls) != n - stored:
                 _fail(fails, sc, 'stored examples are served without recomputing', 'stored=%d recomputed=%d' % (stored, len(calls)), 'recomputed = %d' % (n - stored))
+            try:
+                done = [int(x) for x in open(d + '.progress').read().split()]
+            except Exception:      # noqa
+                done = []
+            again = sorted(set(done) & set(calls))
+            if again:
+                _fail(fails, sc, 'examples whose access had returned in the writer are served without recomputing',
+                      'recomputed %r (the writer had finished %r)' % (again, done), 'none of them')
             del ds
     finally:
         shutil.rmtree(root, ignore_errors=True)
@@ -1562,7 +1574,7 @@ def readahead_dataset_level(tier='quick'):
     fails, cases = [], 0
     n = 24
     configs = []
-    for w, b in ((1, 1), (1, 3), (2, 2), (2, 4)):
+    for w, b in ((1, 1), (1, 3), (2, 2), (2, 4), (3, 3), (4, 4)):
         configs.append(('map(g, num_workers=%d, buffer_size=%d, backend=t)' % (w, b), 'parmap', w, b, 't', _fast_g))
         configs.append(('map(slow g, num_workers=%d, buffer_size=%d, backend=t)' % (w, b), 'parmap', w, b, 't', _slow_g))
     for b in (1, 2, 4):
